@@ -336,6 +336,11 @@ impl Ctl {
         self.buf.iter().any(|e| pred(&e.1))
     }
 
+    /// put an event back at the front of the buffer with its original arrival stamp
+    pub fn unget(&mut self, stamp: u64, ev: Ev) {
+        self.buf.push_front((stamp, ev));
+    }
+
     /// forget buffered/arrived events for which `pred` holds; everything else stays in arrival order
     pub fn forget(&mut self, mut pred: impl FnMut(&Ev) -> bool) {
         while let Ok((st, ev)) = self.rx.try_recv() {
